@@ -222,6 +222,12 @@ func (v *Verifier) addOb(name, kind, clause string, st *State, goal *Term, cover
 		}
 	}
 	cands := append(append([]*Term(nil), st.idx...), sks...)
+	// the key of a running iteration over a map of unknown contents is a term facts are wanted about
+	for _, it := range st.iters {
+		if it.curKey != nil {
+			cands = append(cands, it.curKey)
+		}
+	}
 	if !cover {
 		// a loop counter pinned from both sides ( x < L  and  not x+1 < L ) is replaced by its value L-1,
 		// so that what the invariant says up to x+1 reads as what the goal says up to L
